@@ -232,7 +232,7 @@ def run(ctx):
     quick = ctx.tier == 'quick'
     rng = random.Random(ctx.seed + 15)
     ctx.cov['rule'] = ('one case = the three output files of one real mapping run (random taxonomy, '
-                       'name tables present/absent, four naming schemes incl. names needing CSV '
+                       'name tables present/absent, five naming schemes incl. level names that contain "label" / "name" / "alias" / "assignment" and names needing CSV '
                        'quoting, B=1, K=0, flatten, drop); every cell x level entry is compared by TLC. '
                        'Non-trivial = more than one cell or level; distinct by canonical JSON.')
     ctx.cov['trusted_base'] = ['TLC 1.8', 'python csv module', 'harness projection',
@@ -290,7 +290,7 @@ def run(ctx):
                                 s['markers'][f'{lv_}/{n_}'] = sorted(set(rng.sample(usable, rng.randint(1, len(usable)))))
                 scns.append(s)
             rs = campaign(ctx, scns, f'MapRun_Trace_c15_{named}', name_tables=named, keep=True,
-                          schemes=['structural', 'quoted', 'reversed', 'shared'])
+                          schemes=['structural', 'quoted', 'reversed', 'shared', 'obscols'])
             for r in rs:
                 ctx.count(r['scn'], nontrivial=r['ok'])
                 if not r['ok']:
